@@ -15,7 +15,11 @@ for d in sorted(os.listdir(root)):
     m = os.path.join(root, d, 'meta.json')
     if not os.path.exists(m) or (args and not any(a in d for a in args)):
         continue
-    prop = json.load(open(m))['breaks_property']
+    meta = json.load(open(m))
+    if str(meta.get('status', '')).startswith('neutralised'):
+        print('%-52s %-12s %s' % (d, '', 'neutralised (see meta.json)'), flush=True)
+        continue
+    prop = meta['breaks_property']
     patches = [p for p in sorted(os.listdir(os.path.join(root, d))) if p.startswith('patch') and p.endswith('.diff')]
     if len(patches) > 1:
         patches = [p for p in patches if p != 'patch.diff']
